@@ -152,6 +152,12 @@ class Problem:
             own[rk].add(i)
         return [sorted(o) for o in own]
 
+    def nonascending_replicate_groups(self) -> bool:
+        perm = self.case.get("mesh_perm")
+        if not perm or self.flavour not in ("hsdp", "hybrid_shard"):
+            return False
+        return any(perm[j::self.S] != sorted(perm[j::self.S]) for j in range(self.S))
+
     def f10_class(self) -> bool:
         """Open finding F10: for order-0 blocks (0-d parameter, use_merge_dims=False) of a sub-float32 parameter dtype the search direction is
         float32 (0-d type promotion with the float32 bias-correction scalars), so a communication dtype narrower than float32 rounds it even
@@ -298,11 +304,20 @@ def make_rank_fn(pb: Problem, collect_layout: bool = False, checkpoint_at: int |
             dc = None  # needs the parameters (metadata), built below
         elif fl == "fully_shard":
             mesh = init_device_mesh("cpu", (pb.S,))
-            s = mesh.get_local_rank(0)
+            s = mesh.get_coordinate()[0]
             dc = FullyShardShampooConfig()
         else:
-            mesh = init_device_mesh("cpu", (pb.R, pb.S), mesh_dim_names=("replicate", "shard"))
-            s = mesh.get_local_rank(1)
+            perm = pb.case.get("mesh_perm")
+            if perm:
+                from torch.distributed.device_mesh import DeviceMesh
+
+                # the same (replicate x shard) layout with the global ranks placed in a different order (any DeviceMesh is a legal argument)
+                mesh = DeviceMesh("cpu", torch.tensor(perm).reshape(pb.R, pb.S), mesh_dim_names=("replicate", "shard"))
+            else:
+                mesh = init_device_mesh("cpu", (pb.R, pb.S), mesh_dim_names=("replicate", "shard"))
+            # the shard a rank holds is given by its mesh *coordinate* (what DTensor / FSDP use); get_local_rank() is the rank inside the (sorted)
+            # process group and differs from the coordinate on meshes whose ranks are not in ascending order
+            s = mesh.get_coordinate()[1]
             dc = None
         # local parameters
         local0 = [pb.local_of(pb.full[i], i, s) for i in range(len(pb.shapes))]
@@ -451,7 +466,10 @@ def run_case(case: dict, prefix: str, collect_layout: bool = False, checkpoint_a
                 out.classes.append("serial_raises_too")
                 return out, info
         site = [ln.strip() for ln in tb.splitlines() if ln.strip().startswith("File") and "/vf/" not in ln]
-        out.fail(f"{prefix}.rank_raises", f"a simulated rank raised {etype}" + (f" at {site[-1].split(', in ')[-1]}" if site else ""), tb[:300] + " ... " + tb[-1500:])
+        sig = f"a simulated rank raised {etype}" + (f" at {site[-1].split(', in ')[-1]}" if site else "")
+        if pb.nonascending_replicate_groups() and etype == "RuntimeError" and ("doesn't match the broadcast shape" in tb or "size of tensor a (0) must match" in tb):
+            sig += " (state DTensor allocated on a submesh that does not contain the owning rank: device mesh with non-ascending replicate groups)"
+        out.fail(f"{prefix}.rank_raises", sig, tb[:300] + " ... " + tb[-1500:])
         return out, info
     # (c) T1 / (d) T2
     for v in tr["t1"]:
@@ -510,6 +528,8 @@ def world_classes(pb: Problem, tr: dict) -> list[str]:
             cl.append("reduced_precision")
         if len(set(pb.dts)) > 1:
             cl.append("mixed_param_dtypes")
+        if pb.case.get("mesh_perm") and list(pb.case["mesh_perm"]) != sorted(pb.case["mesh_perm"]):
+            cl.append("permuted_mesh")
         if 1 < pb.group_size < pb.R:
             cl.append("group_between_1_and_W")
     prev = None
